@@ -985,7 +985,7 @@ class FastSimulation(object):
                 wire = self.block.wirevector_by_name[wire_name]
                 if not isinstance(wire, (Input, Register, Output)):
                     value = int(wire.val) if isinstance(wire, Const) else self._varname(wire)
-                    prog.append('    outs["%s"] = %s' % (wire_name, value))
+                    prog.append('    outs[%s] = %s' % (repr(wire_name), value))
 
         prog.append("    return regs, outs, mem_ws")
         return '\n'.join(prog)
